@@ -514,7 +514,7 @@ fn outgoing_pubrel_step(n: usize) {
 // (content and order of the returned requests are checked by the native bounded stand-in
 //  native/rumqttc/state_v4.rs: CBMC 6.11 recurses to stack overflow / OOM when the elements of the
 //  returned Vec<Request> are inspected — measured)
-// @steps name=v4_clean props=C02,C07 fn=MqttState::clean call=clean_step
+// @steps name=v4_clean props=C02,C07,C18,C10 fn=MqttState::clean call=clean_step
 fn clean_step(n: usize) {
     let mut st = any_state(n, 2);
     let g = ghost(&st);
